@@ -313,3 +313,16 @@ Fixpoint compact (l : list string) : list string :=
   | x :: ((y :: _) as r) => if String.eqb x y then compact r else x :: compact r
   | _ => l
   end.
+
+(* ------------------------------------------------------------------ internal/k8s/configuration.go *)
+(* getSorted...Keys: the keys of a map, sorted *)
+Definition site_sorted_keys_out {V} (l : list (string * V)) : list string := isort (fun k => k) (map fst l).
+(* the same when the comparator looks at a rendering of the key (listenerHostKey.String()) *)
+Definition site_sorted_keys_by_out {V} (render : string -> string) (l : list (string * V)) : list string :=
+  isort render (map fst l).
+(* holder election: among the claimants the one that is least in a total order wins, whatever the
+   order of arrival (TransportServers on a listener/host: TransportServerConfiguration.Wins) *)
+Definition site_elect_out {V} (rank : string * V -> string) (l : list (string * V)) : option (string * V) :=
+  hd_error (isort rank l).
+(* is there an entry with ... (loop with break) *)
+Definition site_exists_out {V} (p : string * V -> bool) (l : list (string * V)) : bool := existsb p l.
